@@ -140,8 +140,18 @@ impl Prop for P20 {
                 bytes_to_json(&s)
             })
             .collect();
-        // now and then the first line is the replace string itself (substituting it changes nothing - for that line)
         let mut lines = lines;
+        // now and then thousands of empty lines in a row (more than any read buffer holds): still no line at all
+        if _idx % 23 == 5 {
+            let gap = 8180 + rng.below(40);
+            let mut l2: Vec<Value> = vec![str_to_json("first")];
+            l2.extend(std::iter::repeat(json!([])).take(gap));
+            l2.push(str_to_json("x y"));
+            l2.extend(std::iter::repeat(json!([])).take(3 + rng.below(20)));
+            l2.extend(lines.iter().cloned());
+            lines = l2;
+        }
+        // now and then the first line is the replace string itself (substituting it changes nothing - for that line)
         if lines.len() >= 2 && rng.chance(1, 5) {
             lines[0] = str_to_json(&the_r);
         }
